@@ -29,7 +29,7 @@ ASSUMPTIONS = [
 ]
 EXHAUSTIVE = {"quick": "all 54 240 strings of length <= 4 over the alphabet", "thorough": "all 813 615 strings of length <= 5 over the alphabet"}
 REQUIRED = ["values_checked", "class_literal_int", "class_literal_float", "class_nonliteral", "class_grey", "api_uwi_values_checked",
-            "curve_values_checked", "section_Well", "section_Parameter", "section_Version", "section_custom"]
+            "curve_values_checked", "section_Well", "section_Parameter", "section_Version", "section_custom", "steering_item_values_checked"]
 SOFT_DEADLINE = {"quick": 90, "thorough": 1500}
 LEVEL_TEXT = ("Exhaustive enumeration of the short-string space against an independent literal recogniser, observed at the API of "
               "lasio.read; longer strings are sampled.")
@@ -157,6 +157,12 @@ def grid(tier):
         for mn in ("neutral", "API", "Uwi"):
             yield {"strings": [s for s in LONG if s.isascii()], "section": sec, "mn": mn}
     yield {"strings": [s for s in LONG if not s.isascii()], "section": "Well", "mn": "neutral", "probe": True}
+    for mn, val in STEERING_VALUES:
+        yield {"steering": [mn, val]}
+
+
+STEERING_VALUES = [("WRAP", "no"), ("WRAP", "No"), ("WRAP", "n/a"), ("WRAP", "yes please"), ("WRAP", "NO"), ("NULL", "n/a"), ("NULL", "none"),
+                   ("NULL", "-999.25abc"), ("WRAP", "No wrap"), ("NULL", "Missing")]
 
 
 def n_random(tier):
@@ -179,7 +185,28 @@ def random_case(rng, tier):
     return {"strings": out, "section": rng.choice(SECTION_KINDS), "mn": rng.choice(MN_KINDS)}
 
 
+def run_steering(case, ctx):
+    """WRAP (in ~Version) and NULL (in ~Well) are header values like any other: non-numeric text stays verbatim."""
+    lasio = ctx.lasio
+    mn, val = case["steering"]
+    wrap = "WRAP. %s : w" % val if mn == "WRAP" else "WRAP. NO : w"
+    null = "NULL. %s : n" % val if mn == "NULL" else "NULL. -999.25 : n"
+    text = "~Version\nVERS. 2.0 : v\n%s\n~Well\nSTRT.M 1 : s\nSTOP.M 2 : s\nSTEP.M 1 : s\n%s\n~Curves\nDEPT.M : d\nA.U : a\n~ASCII\n1.0 5.5\n2.0 6.5\n" % (wrap, null)
+    for mc in ("upper", "preserve"):
+        try:
+            las = lasio.read(text, mnemonic_case=mc)
+        except Exception as e:
+            ctx.violation("read-raised:steering-item:%s" % type(e).__name__, "reading a file with %s. %s raised %r" % (mn, val, e), {"text": text})
+            return
+        item = (las.version if mn == "WRAP" else las.well)[mn]
+        ctx.count("steering_item_values_checked")
+        judge(ctx, val, item.value, "~%s %s" % ("Version" if mn == "WRAP" else "Well", mn), {"text": text})
+    ctx.case_done(["steering", mn, val], nontrivial=True)
+
+
 def run_case(case, ctx):
+    if case.get("steering"):
+        return run_steering(case, ctx)
     lasio = ctx.lasio
     sec, mnk = case["section"], case["mn"]
     strings = list(dict.fromkeys(case["strings"]))
